@@ -642,10 +642,14 @@ func Map.Range#impl
 // counter) and only the `rely` - the representation invariant - is assumed; `old` then means the state right after
 // the acquisition. Values read before the lock are stale there: the double-checked locking of map.go (re-load m.read
 // under the lock before trusting m.dirty) is what these obligations check. Interference between other atomic steps is
-// NOT modelled (that is C04).
+// NOT modelled (that is C04). `opt noblindstore on` (every operation but Store, whose meaning IS to overwrite): the
+// operation may not reach a helper that overwrites an entry's cell blindly (a callee whose contract needs
+// `opt blindstore`, i.e. storeLocked) - a LoadOrStore that stores blindly after un-expunging can overwrite the value a
+// lock-free LoadOrStore has just installed through the read map.
 func Map.Load#lk
   property C03, C05, C09
   requires m != nil && expunged != nil && !fresh(expunged) && minv(m)
+  opt noblindstore on
   opt lockhavoc on
   rely minv(m) && expunged == old(expunged)
   ensures[ok]    ok == old(present(m, key))
@@ -669,6 +673,7 @@ func Map.Store#lk
 func Map.LoadOrStore#lk
   property C03, C05, C09
   requires m != nil && expunged != nil && !fresh(expunged) && minv(m)
+  opt noblindstore on
   opt lockhavoc on
   rely minv(m) && expunged == old(expunged)
   ensures[loaded] loaded == old(present(m, key))
@@ -682,6 +687,7 @@ func Map.LoadOrStore#lk
 func Map.LoadAndDelete#lk
   property C03, C05, C09
   requires m != nil && expunged != nil && !fresh(expunged) && minv(m)
+  opt noblindstore on
   opt lockhavoc on
   rely minv(m) && expunged == old(expunged)
   ensures[loaded] loaded == old(present(m, key))
@@ -694,6 +700,7 @@ func Map.LoadAndDelete#lk
 func Map.Range#lk
   property C03, C05, C09
   requires m != nil && expunged != nil && !fresh(expunged) && minv(m)
+  opt noblindstore on
   opt lockhavoc on
   rely minv(m) && expunged == old(expunged)
   ensures[inv]     minv(m)
